@@ -31,6 +31,15 @@ def run_history(args):
     for k in range(n):
         state = TJ.to_tree(ro.xml)
         mo = None
+        held = None
+        if views:
+            from . import access_family
+            held = access_family.hold(ro)
+            for hs in held:                # read once, as a caller listing the stories would
+                try:
+                    hs.body, hs.script, hs.items, hs.duration
+                except Exception:  # noqa: BLE001
+                    pass
         if live:
             str(ro), ro.completed          # whatever the object caches must not go stale
         obj = None
@@ -39,10 +48,10 @@ def run_history(args):
             cls, msg_text, mo = objects[obj]      # the same message object is added again
         elif k == delete_at:
             cls, msg = 'RunningOrderEnd', B.ro_delete(message_id=str(ids[k]))
-            msg_text = TJ.to_text(msg)
+            msg_text = TJ.to_text(msg).replace(gen_hist.CR, '&#13;')
         else:
             cls, msg = gen_hist.random_message(g, state, ids[k])
-            msg_text = TJ.to_text(msg)
+            msg_text = TJ.to_text(msg).replace(gen_hist.CR, '&#13;')
         docs.append(msg_text)
         step = {'ro_before': state, 'msg_text': msg_text, 'cls': cls, 'k': k,
                 'completed_before': bool(ro.completed), 'reused_object': mo is not None}
@@ -65,6 +74,7 @@ def run_history(args):
             if views:
                 from . import access_family
                 step['view'] = access_family.read_view(ro)
+                step['held_mismatch'] = access_family.held_mismatch(held or [], ro)
         steps.append(step)
     return {'seed': seed, 'ro_text': ro_text, 'steps': steps, 'docs': docs, 'ids': [1] + ids}
 
@@ -97,6 +107,7 @@ def history_cases(hists):
             if 'obs' not in st:
                 continue
             c = {'family': 'hist', 'cls': st['kind'], 'label': f'hist:seed={h["seed"]}:step={st["k"]}:{st["cls"]}',
+                 'hist_id': str(h['seed']), 'k': st['k'], 'history_script': {'ro_text': h['ro_text'], 'script': list(script)},
                  'ro': st['ro_before'], 'msg': TJ.parse(st['msg_text']), 'msg_text': st['msg_text'],
                  'impl': dict(st['obs'], kind=st['kind'])}
             special = special or bool(st.get('reused_object')) or st.get('via') == 'merge'
@@ -155,7 +166,7 @@ def _reuse_plans():
     def BODY():
         # every kind of paragraph a body can hold: empty, absent text, blank, bracketed, plain, non-ASCII blanks
         return [B.p(None), B.item('n1'), B.p('carried text'), B.p(''), B.item('n2'), B.p('   '), B.p('(a note)'), B.item('n3'),
-                B.p('\u00a0\u3000'), E('p', E('b', text='bold'), text=None), B.p(' last ')]
+                B.p('\u00a0\u3000'), E('p', E('b', text='bold'), text=None), B.p('Line one' + gen_hist.CR + 'line two'), B.p(' last ')]
 
     def n_story():
         return B.story('N', BODY(), md=B.timing_md(duration='10'))
@@ -192,11 +203,22 @@ def _reuse_plans():
     for cn, carrier in carriers.items():
         for en, edit in edits.items():
             for restore in (False, True):
-                plan = [(cn.split('-')[0], carrier), (en, edit('S1' if cn == 'StorySend-existing' else story_of(cn)))]
+                tgt = 'S1' if cn == 'StorySend-existing' else story_of(cn)
+                plan = [(cn.split('-')[0], carrier), (en, edit(tgt))]
                 if restore:
                     plan.append(('RunningOrderReplace', rr(12)))
                 plan.append(('reuse', 0))
+                # ... and the running order is edited again where the re-added content sits
+                plan.append(('ItemMoveMultiple', B.item_move_multiple(tgt, ['n3', 'n1', 'n2'], message_id='13')))
+                plan.append(('ItemInsert', B.item_insert(tgt, 'n2', [B.item('late')], message_id='14')))
                 plans.append((f'{cn}/{en}/{"restored" if restore else "same"}', ro(), plan))
+        # the carried story is deleted as a whole, the same object is added again, then its items are moved
+        if story_of(cn) == 'N' and cn != 'StorySend':
+            plans.append((f'{cn}/deleted-and-re-added', ro(),
+                          [(cn.split('-')[0], carrier), ('ItemDelete', B.item_delete('N', ['n1'], message_id='11')),
+                           ('StoryDelete', B.story_delete(['N'], message_id='12')), ('reuse', 0),
+                           ('ItemMoveMultiple', B.item_move_multiple('N', ['n3', 'n1', 'n2'], message_id='13')),
+                           ('EAItemSwap', B.ea('SWAP', {'storyID': 'N'}, [B.ids('itemID', ['n1', 'n3'])], message_id='14'))]))
     return plans
 
 
@@ -265,6 +287,15 @@ def _run_plans(plans, prefix, views=False):
         for k, (cls, msg) in enumerate(plan):
             state = TJ.to_tree(ro.xml)
             str(ro), ro.completed
+            held = None
+            if views:
+                from . import access_family
+                held = access_family.hold(ro)
+                for hs in held:
+                    try:
+                        hs.body, hs.script, hs.items, hs.duration
+                    except Exception:  # noqa: BLE001
+                        pass
             if cls == 'reuse':
                 obj = msg
                 cls, msg_text, mo = objects[obj]
@@ -272,7 +303,7 @@ def _run_plans(plans, prefix, views=False):
                     continue
                 reused = True
             else:
-                msg_text = TJ.to_text(msg)
+                msg_text = TJ.to_text(msg).replace(gen_hist.CR, '&#13;')
                 kc = impl.classify_text(msg_text)
                 if 'err' in kc:
                     # reported through the classification comparison of the merge family
@@ -294,6 +325,7 @@ def _run_plans(plans, prefix, views=False):
             if views:
                 from . import access_family
                 step['view'] = access_family.read_view(ro)
+                step['held_mismatch'] = access_family.held_mismatch(held or [], ro)
             steps.append(step)
         out.append({'seed': prefix + name, 'ro_text': ro_text, 'steps': steps, 'docs': docs, 'ids': []})
     return out
